@@ -585,7 +585,25 @@ func (x *Exec) step(st *State, fr *Frame, ins ssa.Instruction) bool {
 		return x.runDefers(st, fr, i)
 	case *ssa.Go:
 		x.ghostEvent(st, "go", x.pos(i.Pos()))
-	case *ssa.Send, *ssa.Select:
+	case *ssa.Select:
+		// Channel readiness is not modelled: any case may be chosen (index unconstrained within range; -1 = default
+		// of a non-blocking select), received values are unconstrained. Sound for safety/functional duties of the
+		// sequential code; blocking and wake-up order are outside this technique.
+		idx := Sym(fresh("select.index"), SInt)
+		lo := Int(0)
+		if !i.Blocking {
+			lo = Int(-1)
+		}
+		st.assume(And(Le(lo, idx), Lt(idx, Int(int64(len(i.States))))))
+		tup := Tup{Sc{idx}, Sc{Sym(fresh("select.ok"), SBool)}}
+		for _, sst := range i.States {
+			if sst.Dir == types.RecvOnly {
+				et := sst.Chan.Type().Underlying().(*types.Chan).Elem()
+				tup = append(tup, st.freshValue(fresh("select.recv"), et))
+			}
+		}
+		fr.env[i] = tup
+	case *ssa.Send:
 		panic(unsupported("channel operation " + ins.String()))
 	case *ssa.Panic:
 		x.oblige(st, "safety-panic", x.pos(i.Pos()), "explicit panic unreachable", x.safetyProps(), tFalse)
